@@ -253,17 +253,18 @@ func startServer(mode string) (*server, error) {
 
 // outcome is everything observed of one case.
 type outcome struct {
-	Trace      []string // per scripted chunk: "<packets so far><o|c>"
-	Status     string   // o | c
-	Buf        []byte
-	FullSeq    [][]byte
-	Delivered  [][]byte
-	Reads      []int
-	ClosedByIt bool // the side under test closed the connection by itself
-	Stalled    string
-	Runaway    bool
-	Anomalies  []string
-	Err        string // harness-level trouble (dial failed, ...)
+	Trace        []string // per scripted chunk: "<packets so far><o|c>"
+	Status       string   // o | c
+	Buf          []byte
+	FullSeq      [][]byte
+	Delivered    [][]byte
+	Reads        []int
+	ClosedByIt   bool // the side under test closed the connection by itself
+	Stalled      string
+	CloseTimeout bool // waited the full close time-out in vain
+	Runaway      bool
+	Anomalies    []string
+	Err          string // harness-level trouble (dial failed, ...)
 }
 
 const (
@@ -386,6 +387,7 @@ func runServerCase(s *server, chunks [][]byte, total int) (out outcome) {
 	case errored:
 		// the server must close the connection by itself
 		out.ClosedByIt = o.wait(closeTimeout, func() bool { return o.closed }) && waitDone(eof, closeTimeout)
+		out.CloseTimeout = !out.ClosedByIt
 	default:
 		o.mu.Lock()
 		out.ClosedByIt = o.closed || isDone(eof)
@@ -394,6 +396,7 @@ func runServerCase(s *server, chunks [][]byte, total int) (out outcome) {
 		conn.(*net.TCPConn).CloseWrite()
 		if !o.wait(closeTimeout, func() bool { return o.closed }) {
 			out.Anomalies = append(out.Anomalies, "DoClose not observed after EOF")
+			out.CloseTimeout = true
 		}
 	}
 	// DoClose comes after numInvoke dropped to 0: every handler has run. Recv/Invoke are final.
@@ -436,11 +439,13 @@ func runClientCase(ln net.Listener, mode string, chunks [][]byte, total int) (ou
 	case runaway:
 	case errored:
 		out.ClosedByIt = waitDone(eof, closeTimeout)
+		out.CloseTimeout = !out.ClosedByIt
 	default:
 		out.ClosedByIt = isDone(eof)
 		conn.(*net.TCPConn).CloseWrite()
 		if !waitDone(eof, closeTimeout) {
 			out.Anomalies = append(out.Anomalies, "client did not close after EOF")
+			out.CloseTimeout = true
 		}
 	}
 	// the loop has returned (it closed the connection); every PackageFull answer started exactly
